@@ -6,7 +6,7 @@ import props
 ID = "C05"
 INFO = ("YRenderBlock (TLA+ reference): BlockValue = the text a block scalar denotes (literal: lines verbatim; folded: adjacent text lines joined by a space, empty and more-indented "
         "lines kept; strip/clip/keep chomping) and its rendering (header with indentation indicator and chomping indicator in either order, optional comment; content indentation "
-        "0-2 beyond the minimum and a 13-deeper family that reaches the buffer-size path; empty lines with and without spaces; eight parent contexts (including a following sibling at the parent's own column); end of input with final newline, "
+        "0-2 beyond the minimum and a 13-deeper family that reaches the buffer-size path; empty lines with and without spaces; nine parent contexts (including a following sibling at the parent's own column, and an entry after a plain scalar and an empty line); end of input with final newline, "
         "without, with trailing empty lines, or followed by a less-indented node). Gen_Block: TLC enumerates every list of <= 2 (quick) / 3 (thorough) lines over 11 line kinds (text, number-like, marker-like, "
         "comment-like, entry-like, key-like, more-indented by space / by tab, empty with 0 / 1 spaces) x all parameters and simulates lists of <= 6 lines; each rendered stream is "
         "replayed on the real parser (both back-ends; the buffered one exercises the raw-read path) and the scalar's value and style compared, and loaded (the scalar must be a string with that value); the scanner model must agree (drift otherwise).",
